@@ -50,6 +50,15 @@ CLAIMED = {
    text="The real tabular learners run on a scripted discrete environment (scripted, apparently stochastic successors, rewards, starts, episode ends); a float64 numpy reference learner fed from the environment log only must be refined by the returned tables (Q-learning, SARSA, Monte-Carlo, Dyna-Q direct/planning/model); double Q-learning and SARSA(eps>0) by enumerating unobservable coin outcomes on short histories.",
    note="float32 vs float64 tolerance 2e-5 over <= 50 updates.",
    technique="deterministic simulation: scripted transition histories, refinement against executable reference learner"),
+
+ "C15": dict(level="exploration", engine="CheckpointSim + TrainSim", design="§4 C15",
+   text="TD7's assessment state machine driven by scripted (episode length, return) histories with the caller-side epoch bookkeeping, against a reference state machine (conservation of released steps, reset, >= vs >, cut-short, single window switch); plus complete train_td7 runs on a scripted environment where released train iterations, 'training steps' records and checkpoint events per iteration are compared with the reference and checkpoint copies with the acting policy.",
+   note="'Crossing the threshold' = epoch_before < threshold <= epoch_after. Episodes ending before learning_starts belong to no window.",
+   technique="deterministic simulation: scripted outcome histories vs reference state machine; event-log oracle inside simulated training"),
+ "C20": dict(level="exploration", engine="LoggerSim", design="§4 C20",
+   text="Call histories (start/stop/record_stat/record_epoch/define_*) on MemoryLogger, StandardLogger, OrbaxCheckpointer and LoggerLists of them under a simulated clock with forward and backward jumps, against a list reference: records, locations, counters, member agreement, checkpoint cadence vs floor(step/interval) crossings (Orbax) / every f-th epoch (standard), every listed path restorable to the state hashed at that record.",
+   note="Real Orbax and file system (per-run scratch directory). Decreasing steps and re-definition of a frequency after records are outside the quantifier and not generated.",
+   technique="deterministic simulation: seeded call histories, simulated clock seam with jumps, reference model, restore oracle"),
 }
 NA = {
  "C12": "pure value/gradient identities of single loss calls; no schedule, clock, fault or retained state for a simulator to control",
@@ -84,6 +93,8 @@ man = {
  "engines": [
    {"name": "BufferSim", "path": "rlsim/buffersim.py", "serves_properties": ["C02", "C04", "C08", "C19"], "kind_free_text": "operation-history simulator for the replay buffers with generator seam and reference models"},
    {"name": "TrainSim", "path": "rlsim/trainsim.py", "serves_properties": ["C01", "C03", "C05", "C06", "C07", "C09", "C10", "C11", "C13", "C15"], "kind_free_text": "complete training routines against a scripted environment (SimEnv), recording sampler, module probes, snapshot monitors"},
+   {"name": "CheckpointSim", "path": "rlsim/ckptsim.py", "serves_properties": ["C15"], "kind_free_text": "TD7 assessment state machine under scripted episode outcomes"},
+   {"name": "LoggerSim", "path": "rlsim/loggersim.py", "serves_properties": ["C20"], "kind_free_text": "loggers and checkpointers under planned call histories and a simulated clock"},
    {"name": "TabularSim", "path": "rlsim/tabsim.py", "serves_properties": ["C13", "C14", "C11"], "kind_free_text": "tabular learners against a scripted discrete environment with a float64 reference learner"},
  ],
  "checks": checks,
